@@ -24,6 +24,9 @@
      CreateErrIsExist  `Store::entry` retries on EEXIST from the exclusive create and reports
                    ENOENT (FALSE: it retries on ENOENT — DESIGN §7.10 — and therefore never
                    returns once the root directory is gone; modelled as outcome "hang")
+     DirtyAfterWrite  `VacantEntry::insert` marks the entry dirty only after the key was encoded,
+                   written and synced (FALSE: before the write — a failing insert then leaves
+                   the empty/partial file behind: a ghost entry that looks occupied)
 
    History mode (DESIGN §2.1): `hist` is part of the state, every maximal behaviour is emitted
    as one REPLAY line and replayed on both real stores.                                      *)
@@ -33,13 +36,14 @@ CONSTANTS NIds,        \* ids 1..NIds
           MaxOps,      \* length of a behaviour
           GoneTail,    \* RootGone may only happen when at most GoneTail ops follow (-1: never)
           SymBreak,    \* ids are interchangeable: first use of id i+1 only after id i was used
-          SeekOnGet, ReadThenUnlink, UnlinkOnDrop, CreateErrIsExist
+          MaxFail,     \* at most this many failing inserts per behaviour
+          SeekOnGet, ReadThenUnlink, UnlinkOnDrop, CreateErrIsExist, DirtyAfterWrite
 
 VARIABLES map, ins, lastins,      \* property level
           file, h, gone,          \* fs implementation level
-          nextv, maxused, last, hist
+          nextv, maxused, fails, last, hist
 
-vars == <<map, ins, lastins, file, h, gone, nextv, maxused, last, hist>>
+vars == <<map, ins, lastins, file, h, gone, nextv, maxused, fails, last, hist>>
 
 Ids == 1..NIds
 NoHandle == [k |-> "none", id |-> 0, off |-> 0]
@@ -67,6 +71,7 @@ Init == /\ map = [i \in Ids |-> 0]
         /\ gone = FALSE
         /\ nextv = 1
         /\ maxused = 0
+        /\ fails = 0
         /\ last = [a |-> Res("init", 0), f |-> Res("init", 0)]
         /\ hist = <<>>
 
@@ -74,10 +79,13 @@ Init == /\ map = [i \in Ids |-> 0]
 ReadAt(i, off) ==
   IF (SeekOnGet \/ off = 0) /\ file[i] > 0 THEN Res("some", file[i]) ELSE Res("err", 0)
 
+(* what `Store::entry` does once the root directory is gone: both opens fail with ENOENT *)
+GoneEntry == IF CreateErrIsExist THEN Res("err", 0) ELSE Res("hang", 0)
+
 ----------------------------------------------------------------------------------
 (* KeyStore::entry — fs: open(O_RDWR)+flock, on ENOENT open(O_CREAT|O_EXCL)+flock *)
 Entry(i) ==
-  /\ More /\ h.k = "none" /\ ~gone /\ IdOk(i) /\ Use(i)
+  /\ More /\ fails' = fails /\ h.k = "none" /\ ~gone /\ IdOk(i) /\ Use(i)
   /\ IF file[i] = -1
      THEN /\ file' = [file EXCEPT ![i] = 0]
           /\ h' = [k |-> "vacant", id |-> i, off |-> 0]
@@ -90,7 +98,7 @@ Entry(i) ==
 
 (* Vacant::insert — fs: write CBOR, fdatasync, mark dirty *)
 VInsert ==
-  /\ More /\ h.k = "vacant"
+  /\ More /\ fails' = fails /\ h.k = "vacant"
   /\ map' = [map EXCEPT ![h.id] = nextv]
   /\ ins' = ins \cup {h.id}
   /\ lastins' = [lastins EXCEPT ![h.id] = nextv]
@@ -101,9 +109,34 @@ VInsert ==
   /\ UNCHANGED <<gone, maxused>>
   /\ Log("vinsert", h.id, "", nextv)
 
+(* Vacant::insert whose write fails (the wrapped key cannot be encoded, or an I/O error):
+   the call reports the error, the id stays vacant and nothing is left in the directory *)
+KeepsGhost == ~(DirtyAfterWrite /\ UnlinkOnDrop)
+
+VInsertFail ==
+  /\ More /\ h.k = "vacant" /\ fails < MaxFail
+  /\ fails' = fails + 1
+  /\ file' = IF KeepsGhost THEN file ELSE [file EXCEPT ![h.id] = -1]
+  /\ h' = NoHandle
+  /\ last' = [a |-> Res("err", 0), f |-> Res("err", 0)]
+  /\ UNCHANGED <<map, ins, lastins, gone, nextv, maxused>>
+  /\ Log("vinsertfail", h.id, "", 0)
+
+(* KeyStore::try_insert with such a key: AlreadyExists if occupied, else the failing insert *)
+TryInsertFail(i) ==
+  /\ More /\ h.k = "none" /\ IdOk(i) /\ Use(i) /\ fails < MaxFail
+  /\ fails' = fails + 1
+  /\ UNCHANGED <<map, ins, lastins, h, gone, nextv>>
+  /\ IF gone
+     THEN last' = [a |-> Res("err", 0), f |-> GoneEntry] /\ file' = file
+     ELSE /\ last' = [a |-> Res(IF map[i] = 0 THEN "err" ELSE "exists", 0),
+                      f |-> Res(IF file[i] = -1 THEN "err" ELSE "exists", 0)]
+          /\ file' = IF file[i] = -1 /\ KeepsGhost THEN [file EXCEPT ![i] = 0] ELSE file
+  /\ Log("tryinsertfail", i, "", 0)
+
 (* dropping a vacant entry without insert — fs: unlink the empty file *)
 VDrop ==
-  /\ More /\ h.k = "vacant"
+  /\ More /\ fails' = fails /\ h.k = "vacant"
   /\ file' = IF UnlinkOnDrop THEN [file EXCEPT ![h.id] = -1] ELSE file
   /\ h' = NoHandle
   /\ last' = [a |-> Res("ok", 0), f |-> Res("ok", 0)]
@@ -112,7 +145,7 @@ VDrop ==
 
 (* Occupied::get — may be called any number of times *)
 OGet ==
-  /\ More /\ h.k = "occupied"
+  /\ More /\ fails' = fails /\ h.k = "occupied"
   /\ h' = [h EXCEPT !.off = 1]
   /\ last' = [a |-> Res("some", map[h.id]), f |-> ReadAt(h.id, h.off)]
   /\ UNCHANGED <<map, ins, lastins, file, gone, nextv, maxused>>
@@ -121,7 +154,7 @@ OGet ==
 (* Occupied::remove — returns the value and removes the entry.  If the read fails in the
    ReadThenUnlink design the entry stays; in the unlink-first design it is gone either way. *)
 ORemove ==
-  /\ More /\ h.k = "occupied"
+  /\ More /\ fails' = fails /\ h.k = "occupied"
   /\ LET rd == ReadAt(h.id, h.off) IN
        /\ last' = [a |-> Res("some", map[h.id]), f |-> rd]
        /\ file' = IF ReadThenUnlink /\ rd.r = "err" THEN file ELSE [file EXCEPT ![h.id] = -1]
@@ -133,7 +166,7 @@ ORemove ==
 
 (* dropping an occupied entry *)
 ODrop ==
-  /\ More /\ h.k = "occupied"
+  /\ More /\ fails' = fails /\ h.k = "occupied"
   /\ h' = NoHandle
   /\ last' = [a |-> Res("ok", 0), f |-> Res("ok", 0)]
   /\ UNCHANGED <<map, ins, lastins, file, gone, nextv, maxused>>
@@ -141,7 +174,7 @@ ODrop ==
 
 (* KeyStore::get — fs: open(O_RDONLY)+flock(shared), decode; ENOENT -> canary check -> None *)
 Get(i) ==
-  /\ More /\ h.k = "none" /\ IdOk(i) /\ Use(i)
+  /\ More /\ fails' = fails /\ h.k = "none" /\ IdOk(i) /\ Use(i)
   /\ last' = IF gone THEN [a |-> Res("err", 0), f |-> Res("err", 0)]
              ELSE [a |-> IF map[i] = 0 THEN Res("none", 0) ELSE Res("some", map[i]),
                    f |-> IF file[i] = -1 THEN Res("none", 0)
@@ -149,12 +182,9 @@ Get(i) ==
   /\ UNCHANGED <<map, ins, lastins, file, h, gone, nextv>>
   /\ Log("get", i, "", 0)
 
-(* what `Store::entry` does once the root directory is gone: both opens fail with ENOENT *)
-GoneEntry == IF CreateErrIsExist THEN Res("err", 0) ELSE Res("hang", 0)
-
 (* KeyStore::try_insert = entry; Vacant -> insert / Occupied -> AlreadyExists *)
 TryInsert(i) ==
-  /\ More /\ h.k = "none" /\ IdOk(i) /\ Use(i)
+  /\ More /\ fails' = fails /\ h.k = "none" /\ IdOk(i) /\ Use(i)
   /\ UNCHANGED <<h, gone>>
   /\ IF gone
      THEN /\ last' = [a |-> Res("err", 0), f |-> GoneEntry]
@@ -174,7 +204,7 @@ TryInsert(i) ==
 
 (* KeyStore::remove = entry; Vacant -> None (the vacant entry is dropped) / Occupied -> remove *)
 Remove(i) ==
-  /\ More /\ h.k = "none" /\ IdOk(i) /\ Use(i)
+  /\ More /\ fails' = fails /\ h.k = "none" /\ IdOk(i) /\ Use(i)
   /\ IF gone
      THEN /\ last' = [a |-> Res("err", 0), f |-> GoneEntry]
           /\ UNCHANGED <<map, ins, file>>
@@ -191,7 +221,7 @@ Remove(i) ==
 
 (* KeyStore::entry after the root is gone (no handle results) *)
 EntryGone(i) ==
-  /\ More /\ h.k = "none" /\ gone /\ IdOk(i) /\ Use(i)
+  /\ More /\ fails' = fails /\ h.k = "none" /\ gone /\ IdOk(i) /\ Use(i)
   /\ last' = [a |-> Res("err", 0), f |-> GoneEntry]
   /\ UNCHANGED <<map, ins, lastins, file, h, gone, nextv>>
   /\ Log("entry", i, "", 0)
@@ -199,14 +229,14 @@ EntryGone(i) ==
 (* drop the store object and open the directory again ("open"), or continue on
    `Store::try_clone` / `MemStore::clone` and drop the original ("clone") *)
 Reopen(how) ==
-  /\ More /\ h.k = "none" /\ ~gone
+  /\ More /\ fails' = fails /\ h.k = "none" /\ ~gone
   /\ last' = [a |-> Res("ok", 0), f |-> Res("ok", 0)]
   /\ UNCHANGED <<map, ins, lastins, file, h, gone, nextv, maxused>>
   /\ Log("reopen", 0, how, 0)
 
 (* environment: the root directory is removed while the store is open *)
 RootGone ==
-  /\ More /\ h.k = "none" /\ ~gone
+  /\ More /\ fails' = fails /\ h.k = "none" /\ ~gone
   /\ GoneTail >= 0 /\ MaxOps - Len(hist) - 1 <= GoneTail
   /\ gone' = TRUE
   /\ file' = [i \in Ids |-> -1]
@@ -217,7 +247,8 @@ RootGone ==
   /\ Log("rootgone", 0, "", 0)
 
 Next == \/ \E i \in Ids : Entry(i) \/ EntryGone(i) \/ Get(i) \/ TryInsert(i) \/ Remove(i)
-        \/ VInsert \/ VDrop \/ OGet \/ ORemove \/ ODrop
+                         \/ TryInsertFail(i)
+        \/ VInsert \/ VInsertFail \/ VDrop \/ OGet \/ ORemove \/ ODrop
         \/ \E how \in {"open", "clone"} : Reopen(how)
         \/ RootGone
 
@@ -255,7 +286,7 @@ GoneIsError == (gone /\ hist[Len(hist)].op # "rootgone") => last.f.r = "err"
 
 ----------------------------------------------------------------------------------
 (* deep design-level runs: identify states that differ only in the history before the last call *)
-ViewNoHist == <<map, ins, lastins, file, h, gone, nextv, maxused, last, Len(hist),
+ViewNoHist == <<map, ins, lastins, file, h, gone, nextv, maxused, fails, last, Len(hist),
                 IF Len(hist) = 0 THEN <<>> ELSE <<hist[Len(hist)]>> >>
 
 (* S2I emission: one line per maximal behaviour *)
